@@ -17,7 +17,7 @@ def register(gen, T):
         ast_rs = T.src("ast/src/ast_expressions.rs")
         irt_rs = T.src("ir/src/ir_types.rs")
         out = [T.header("HlslGenTables", ["hlsl/src/ast_generate.rs", "ir/src/intrinsics.rs",
-                                          "ir/src/ir_types.rs", "ast/src/ast_expressions.rs"])]
+                                          "ir/src/ir_types.rs", "ir/src/ir_statements.rs", "ast/src/ast_expressions.rs"])]
 
         def enum(name, lean_name, src):
             raw = [v for v, _ in enum_variants(src, name)]
@@ -203,6 +203,88 @@ def register(gen, T):
             r"location: SourceLocation::UNKNOWN, attributes: Vec::new\(\), \}\); ast::StatementKind::DefaultLabel\(empty_statement\) \}", gs))
         out.append("/-- generate_statement: a label is emitted with an empty statement in its slot; the constant goes through generate_literal -/\n"
                    f"def labelsEmittedEmpty : Bool := {'true' if labels_ok else 'false'}\n\n")
+
+        # ---------------------------------------------------------------- generate_statement: every arm of `match &statement.kind`
+        # (seeded mutant C01-3 added a *guarded* IfElse arm in front of the modelled one that rewrites the condition)
+        stmt_rs = T.src("ir/src/ir_statements.rs")
+        kinds = [v for v, _ in enum_variants(stmt_rs, "StatementKind")]
+        gbody = fn_body(gen_rs, "generate_statement")
+        _, garms, gend = first_match(gbody, r'^&statement\.kind$')
+        BOX = ("let %s = Box::new(ast::Statement { kind: ast::StatementKind::Block(%s), location: SourceLocation::UNKNOWN, "
+               "attributes: Vec::new(), });")
+        EMPTY = ("let empty_statement = Box::new(ast::Statement { kind: ast::StatementKind::Empty, location: SourceLocation::UNKNOWN, "
+                 "attributes: Vec::new(), });")
+        cond_block = lambda k: ("{ let cond = generate_expression(cond, context)?; let block = generate_scope_block(block, context)?; "
+                                "let cond = Located::none(cond); " + BOX % ("block", "block") + " ast::StatementKind::" + k + "(cond, block) }")
+        expected = {
+            "ir::StatementKind::Expression(expr)": "{ let expr = generate_expression(expr, context)?; ast::StatementKind::Expression(expr) }",
+            "ir::StatementKind::Var(def)": "{ let def = generate_variable_definition(def, context)?; ast::StatementKind::Var(def) }",
+            "ir::StatementKind::Block(block)": "{ let statements = generate_scope_block(block, context)?; ast::StatementKind::Block(statements) }",
+            "ir::StatementKind::If(cond, block)": cond_block("If"),
+            "ir::StatementKind::IfElse(cond, block_true, block_false)": (
+                "{ let cond = generate_expression(cond, context)?; let block_true = generate_scope_block(block_true, context)?; "
+                "let block_false = generate_scope_block(block_false, context)?; let cond = Located::none(cond); "
+                + BOX % ("block_true", "block_true") + " " + BOX % ("block_false", "block_false") +
+                " ast::StatementKind::IfElse(cond, block_true, block_false) }"),
+            "ir::StatementKind::For(init, cond, inc, block)": (
+                "{ let init = generate_for_init(init, context)?; "
+                "let cond = match cond { Some(cond) => Some(Located::none(generate_expression(cond, context)?)), None => None, }; "
+                "let inc = match inc { Some(inc) => Some(Located::none(generate_expression(inc, context)?)), None => None, }; "
+                "let block = generate_scope_block(block, context)?; " + BOX % ("block", "block") +
+                " ast::StatementKind::For(init, cond, inc, block) }"),
+            "ir::StatementKind::While(cond, block)": cond_block("While"),
+            "ir::StatementKind::DoWhile(block, cond)": (
+                "{ let block = generate_scope_block(block, context)?; let cond = generate_expression(cond, context)?; "
+                "let cond = Located::none(cond); " + BOX % ("block", "block") + " ast::StatementKind::DoWhile(block, cond) }"),
+            "ir::StatementKind::Switch(cond, block)": cond_block("Switch"),
+            "ir::StatementKind::Break": "ast::StatementKind::Break",
+            "ir::StatementKind::Continue": "ast::StatementKind::Continue",
+            "ir::StatementKind::Discard": "ast::StatementKind::Discard",
+            "ir::StatementKind::Return(expr_opt)": (
+                "{ if let Some(expr) = expr_opt { let expr = generate_expression(expr, context)?; "
+                "ast::StatementKind::Return(Some(Located::none(expr))) } else { ast::StatementKind::Return(None) } }"),
+            "ir::StatementKind::CaseLabel(value)": (
+                "{ let expr = generate_literal(value, context)?; " + EMPTY +
+                " ast::StatementKind::CaseLabel(Located::none(expr), empty_statement) }"),
+            "ir::StatementKind::DefaultLabel": "{ " + EMPTY + " ast::StatementKind::DefaultLabel(empty_statement) }",
+        }
+        srows = []
+        for pats, guard, result in match_arms(garms):
+            pat = " | ".join(pats)
+            km = re.fullmatch(r'ir::StatementKind::([A-Za-z0-9]+)(\(.*\))?', pat)
+            kind = km.group(1) if km else pat
+            srows.append((kind, guard is not None, expected.get(pat) == normws(result)))
+        out.append("/-- `ir::StatementKind` -/\ndef statementKinds : List String := " + T.lean_list(lean_str(k) for k in kinds) + "\n\n")
+        out.append("/-- the arms of `match &statement.kind` in generate_statement, in source order: (kind matched, the arm has a guard,\n"
+                   "the arm's body is textually the one `Model.GenHlsl.genStmt` mirrors: the condition goes through generate_expression\n"
+                   "unmodified, the blocks through generate_scope_block in source order, wrapped in attribute-free Block statements) -/\n"
+                   "def statementArms : List (String × Bool × Bool) :=\n  " +
+                   T.lean_list(f"({lean_str(k)}, {'true' if g else 'false'}, {'true' if ok else 'false'})" for k, g, ok in srows) + "\n\n")
+        out.append("/-- every statement kind has exactly one arm, no arm has a guard, every arm is the modelled one -/\n"
+                   "def statementArmsAsModelled : Bool :=\n"
+                   "  statementArms.length == statementKinds.length &&\n"
+                   "  statementKinds.all (fun k => (statementArms.filter (fun a => a.1 == k)).length == 1) &&\n"
+                   "  statementArms.all (fun a => !a.2.1 && a.2.2)\n\n"
+                   "/-- the IfElse arm: one arm, unguarded (it applies to empty and non-empty blocks alike), emits\n"
+                   "`IfElse(gen cond, Block(gen block_true), Block(gen block_false))` — both blocks, in order, the condition unmodified -/\n"
+                   "def ifElseArmAsModelled : Bool :=\n"
+                   "  (statementArms.filter (fun a => a.1 == \"IfElse\")) == [(\"IfElse\", false, true)]\n\n")
+        wrap_ok = normws(gbody[:gbody.index("let kind = match")]) == (
+            "let mut attributes = Vec::new(); for attribute in &statement.attributes { "
+            "attributes.push(generate_statement_attribute(attribute, context)?); }") and \
+            normws(gbody[gend:]) == "; Ok(ast::Statement { kind, location: SourceLocation::UNKNOWN, attributes, })"
+        out.append("/-- around the match: the attributes are translated one by one in order, the result is the matched kind with them -/\n"
+                   f"def statementWrapperAsModelled : Bool := {'true' if wrap_ok else 'false'}\n")
+        fi = normws(fn_body(gen_rs, "generate_for_init"))
+        fi_ok = fi == (
+            "let ast = match init { ir::ForInit::Empty => ast::InitStatement::Empty, ir::ForInit::Expression(expr) => { "
+            "ast::InitStatement::Expression(Located::none(generate_expression(expr, context)?)) } ir::ForInit::Definitions(defs) => { "
+            "let (head, tail) = defs.split_first().unwrap(); let mut ast = generate_variable_definition(head, context)?; "
+            "assert_eq!(ast.defs.len(), 1); for def in tail { let mut tail_ast = generate_variable_definition(def, context)?; "
+            "assert_eq!(ast.local_type, tail_ast.local_type); assert_eq!(tail_ast.defs.len(), 1); ast.defs.append(&mut tail_ast.defs); } "
+            "ast::InitStatement::Declaration(ast) } }; Ok(ast)")
+        out.append("/-- generate_for_init: empty / one expression / the definitions in order under the first one's base type -/\n"
+                   f"def forInitAsModelled : Bool := {'true' if fi_ok else 'false'}\n\n")
 
         # ---------------------------------------------------------------- generate_scalar_type
         sbody = fn_body(gen_rs, "generate_scalar_type")
